@@ -129,8 +129,10 @@ func expected(benign, v string) []string {
 	if strings.Count(benign, "x") != 1 {
 		return nil
 	}
+	// the twin's token holds more than the value (x%, %x, %x%): a LIKE pattern, in which the value's own backslash,
+	// percent and underscore must be escaped
 	likeEsc := strings.NewReplacer(`\`, `\\`, `%`, `\%`, `_`, `\_`).Replace(v)
-	return []string{strings.Replace(benign, "x", v, 1), strings.Replace(benign, "x", likeEsc, 1)}
+	return []string{strings.Replace(benign, "x", likeEsc, 1)}
 }
 
 func paramsHold(params map[string]any, v string) bool {
@@ -270,7 +272,14 @@ func classOf(s shape, reason string) string {
 		return s.Position + "-emitted-unquoted"
 	}
 	if reason == "value-altered" {
-		return s.Position + ":value-altered@" + s.Name
+		how := "plain"
+		switch {
+		case s.Name == "regex":
+			how = "regex"
+		case s.Transform != "":
+			how = "like-pattern"
+		}
+		return s.Position + ":value-altered@" + how
 	}
 	return s.Position + ":" + reason
 }
